@@ -288,7 +288,37 @@ def _t_rec_two_consumers(rng, I):
             N([['r', ['rec', 1, 3, mx]]]), N([['r', I(3)], ['s', I(0)]]), N([['a', I(4)], ['b', I(5)]])]
 
 
+def _t_candidate_two_deps(rng, I):
+    # a candidate with two parallel dependencies, one of which may fail while the other is still in flight; the fallback
+    # (and then the output) can finish before the slow dependency of the abandoned candidate does
+    f = rng.choice([['EA'], ['EA'], [], ['EC']])
+    nodes = [N(), N([['a', I(0)]]), N([['a', I(0)]], fails=f), N([['a', I(1)], ['b', I(2)]]),
+             N([['a', I(0)]], fails=rng.choice([[], [], [], ['EB']])), N([['v', ['oneof', [3, 4]]]])]
+    if rng.random() < 0.4:
+        nodes.append(N([['a', I(5)]]))
+    return nodes
+
+
+def _t_failure_beside_running(rng, I):
+    # a node fails while siblings are still in flight (plain DAG): the run is decided with work outstanding
+    k = rng.choice([2, 3])
+    nodes = [N()] + [N([['a', I(0)]], fails=(['EA'] if j == 0 else rng.choice([[], [], ['EC']]))) for j in range(k)]
+    nodes.append(N([['p%d' % j, I(1 + j)] for j in range(k)]))
+    return nodes
+
+
+def _t_nested_rec(rng, I):
+    # an inner recurrent subgraph (2 -> 3) inside an outer one (1 -> 5); with 'receven' the inner one iterates again in every
+    # outer pass, with 'recur' only in the first
+    mx1, mx2 = rng.choice([1, 2]), rng.choice([1, 2, 3])
+    inner = rng.choice([['receven', 3], ['receven', 5], ['recur', rng.randint(0, 2)]])
+    return [N(), N([['a', I(0)]]), N([['a', I(1)]]), N([['a', I(2)]], beh=inner, use_default=rng.random() < 0.3),
+            N([['r', ['rec', 2, 3, mx1]]]), N([['a', I(4)]], beh=['recur', rng.randint(0, 3)], use_default=rng.random() < 0.3),
+            N([['r', ['rec', 1, 5, mx2]]])]
+
+
 TEMPLATES = {'retry_outside_reader': _t_retry_outside_reader, 'default_on_start': _t_default_on_start,
              'shared_case_in_flight': _t_shared_case_in_flight, 'shared_between_candidates': _t_shared_between_candidates,
              'nested_oneof': _t_nested_oneof, 'two_scopes_one_node': _t_two_scopes_one_node,
-             'rec_two_consumers': _t_rec_two_consumers}
+             'rec_two_consumers': _t_rec_two_consumers, 'candidate_two_deps': _t_candidate_two_deps,
+             'failure_beside_running': _t_failure_beside_running, 'nested_rec': _t_nested_rec}
